@@ -19,6 +19,7 @@ type SQLOpts struct {
 	JSONHeavy  bool // at least one jsonb column (C04)
 	NoJSON     bool
 	Executable bool // restrict to shapes the executed CRUD property can drive (C05)
+	ForeignIDs bool // foreign keys whose ID type is declared by another package of the module, which ships its own <T>ArrayToPQ helpers (C01 only: the target table is not created by the analysed file)
 	MaxTables  int
 }
 
@@ -44,15 +45,22 @@ var tableWords = []string{"Item", "Client", "Event", "Token", "Ledger", "Entry",
 var colWords = []string{"Name", "Value", "Count", "Size", "Title", "Body", "Owner", "Rank", "Width", "Height", "Amount", "Code", "Flag",
 	"Note", "Total", "Ratio", "Start", "Stop", "First", "Last", "Inner", "Outer", "Data", "Meta", "Extra", "Path", "Weight", "Speed", "Stock"}
 
+type jsonCol struct {
+	Name  string
+	Type  *TypeRef
+	owner int
+}
+
 type sqlGen struct {
-	t      *rapid.T
-	o      *SQLOpts
-	spec   *Spec
-	root   *Pkg
-	defs   *File
-	other  *File
-	used   map[string]bool
-	tables []*sqlTable
+	jsonCols []jsonCol
+	t        *rapid.T
+	o        *SQLOpts
+	spec     *Spec
+	root     *Pkg
+	defs     *File
+	other    *File
+	used     map[string]bool
+	tables   []*sqlTable
 	// lazily created shared column types
 	dateType  string
 	stampType string
@@ -166,6 +174,17 @@ func GenSQL(t *rapid.T, o *SQLOpts) *Spec {
 }
 
 func (sg *sqlGen) local(name string) *TypeRef { return Ref(sg.root.Path, name) }
+
+// extPkg returns the sibling package holding foreign ID types (created on demand)
+func (sg *sqlGen) extPkg() *Pkg {
+	if len(sg.spec.Pkgs) > 1 {
+		return sg.spec.Pkgs[1]
+	}
+	name := sg.pick("extPkg", []string{"users", "accounts", "core"})
+	p := &Pkg{Name: name, Path: Module + "/" + name, Files: []*File{{Name: name + ".go"}}}
+	sg.spec.Pkgs = append(sg.spec.Pkgs, p)
+	return p
+}
 
 func (sg *sqlGen) colName(used map[string]bool, label string) string {
 	for try := 0; ; try++ {
@@ -456,6 +475,39 @@ func (sg *sqlGen) fillTable(idx int, tb *sqlTable) {
 		fkFields = append(fkFields, fname)
 		nullableFK[fname] = nullable
 	}
+	if o.ForeignIDs && rapid.IntRange(0, 2).Draw(t, "foreignPkgID") == 0 {
+		// a key into a table of another package: the ID type (and its array helpers) live there
+		ext := sg.extPkg()
+		word := sg.pick("extTable", []string{"User", "Account", "Tenant"})
+		idn := "Id" + word
+		if sg.g.names[ext.Path] == nil {
+			sg.g.names[ext.Path] = map[string]bool{}
+		}
+		if !sg.g.names[ext.Path][idn] {
+			sg.g.names[ext.Path][idn] = true
+			ext.Files[0].Decls = append(ext.Files[0].Decls, &Decl{Kind: KNamed, Name: idn, Type: Basic("int64")})
+			ext.Files[0].Raw += fmt.Sprintf(`//import "github.com/lib/pq"
+
+func %[1]sArrayToPQ(ids []%[1]s) pq.Int64Array {
+	out := make(pq.Int64Array, len(ids))
+	for i, v := range ids {
+		out[i] = int64(v)
+	}
+	return out
+}
+`, idn)
+		}
+		fname := idn
+		if !used[fname] && !sg.used[word] {
+			used[fname] = true
+			f := &Field{Name: fname, Type: Ref(ext.Path, idn)}
+			if rapid.Bool().Draw(t, "foreignPkgCascade") {
+				f.Tag = `gomacro-sql-on-delete:"CASCADE"`
+			}
+			d.Fields = append(d.Fields, f)
+			o.class("sql:fk_id_type_of_other_package")
+		}
+	}
 	// regular columns
 	nCols := rapid.IntRange(1, 6).Draw(t, "nCols")
 	var plainCols []string // columns usable in UNIQUE / select keys / queries (simple comparable scalars)
@@ -471,6 +523,18 @@ func (sg *sqlGen) fillTable(idx int, tb *sqlTable) {
 		}
 		if o.JSONHeavy && !hasJSON && k == nCols-1 {
 			kind = sg.pick("jsonKind", []string{"json", "jsonmap", "jsonslice"})
+		}
+		if strings.HasPrefix(kind, "json") && len(sg.jsonCols) > 0 && rapid.IntRange(0, 2).Draw(t, "sameJSONColumn") == 0 {
+			// the same column (name and type) as a jsonb column of an earlier table
+			prev := sg.jsonCols[rapid.IntRange(0, len(sg.jsonCols)-1).Draw(t, "sameJSONColumnOf")]
+			if !used[prev.Name] && prev.owner != idx {
+				used[prev.Name] = true
+				f.Name, name = prev.Name, prev.Name
+				f.Type = prev.Type
+				kind = "samejson"
+				hasJSON = true
+				o.class("sql:jsonb_column_shared_by_two_tables")
+			}
 		}
 		switch kind {
 		case "bool", "int", "int64", "int32", "int16", "uint8", "float64", "string", "int8", "float32", "uint16":
@@ -534,7 +598,7 @@ func (sg *sqlGen) fillTable(idx int, tb *sqlTable) {
 			hasJSON = true
 		case "jsonmap":
 			pn, _ := sg.ensurePayload()
-			mn := sg.fresh(pn + "Map")
+			mn := sg.fresh(pn + "Dict")
 			sg.defs.Decls = append(sg.defs.Decls, &Decl{Kind: KNamed, Name: mn, Type: Map(Basic("string"), sg.local(pn))})
 			f.Type = sg.local(mn)
 			hasJSON = true
@@ -553,7 +617,7 @@ func (sg *sqlGen) fillTable(idx int, tb *sqlTable) {
 				}
 				elem = sg.local(u.d.Name)
 			}
-			ln := sg.fresh(elem.Name + "Items")
+			ln := sg.fresh(elem.Name + "Seq")
 			sg.defs.Decls = append(sg.defs.Decls, &Decl{Kind: KNamed, Name: ln, Type: Slice(elem)})
 			f.Type = sg.local(ln)
 			hasJSON = true
@@ -566,6 +630,9 @@ func (sg *sqlGen) fillTable(idx int, tb *sqlTable) {
 			f.Tag = fmt.Sprintf(`json:"%s"`, snake(name))
 		}
 		d.Fields = append(d.Fields, f)
+		if strings.HasPrefix(kind, "json") {
+			sg.jsonCols = append(sg.jsonCols, jsonCol{Name: f.Name, Type: f.Type, owner: idx})
+		}
 	}
 	// guard
 	if rapid.IntRange(0, 4).Draw(t, "guard") == 0 {
